@@ -297,7 +297,7 @@ theorem framedOf_identity (l : Nat) :
   simp [Spec.framedOf, List.filter, h1, h2]
 
 /-- the three possible outcomes of the framing decision. -/
-theorem framing_cases {r : Resp} {c : ReqCtx} {bodyLen : Nat} {te : Option Coding}
+theorem choose_framing_cases {r : Resp} {c : ReqCtx} {bodyLen : Nat} {te : Option Coding}
     {len : Option Nat} (hf : framing r c bodyLen = some (te, len)) :
     te = none ∨ te = some .chunked ∨
       (te = some .identity ∧ len = some (r.dataLength.getD bodyLen)) := by
